@@ -47,7 +47,7 @@ pub async fn run_case(case: &Case, window: Duration, max: usize) -> Obs {
             if tls.write_all(&c).await.is_err() || tls.flush().await.is_err() {
                 return;
             }
-            tokio::time::sleep(Duration::from_millis(2)).await;
+            tokio::time::sleep(Duration::from_millis(crate::frame::gap_ms())).await;
         }
         match end {
             End::Quiet => {
